@@ -15,7 +15,7 @@ import ast
 from ..core import AnalysisError, norm, loc, walk_no_nested, attr_chain, call_name, Record
 from ..cfg import CFG
 from ..core import func_params
-from ..normalize import clone, _replace_node, inline, local_env, expand, canon, ctext, conjuncts, branch_values, Unknown, _enclosing
+from ..normalize import clone, _replace_node, truth_under, inline, local_env, expand, canon, ctext, conjuncts, branch_values, Unknown, _enclosing
 from .. import flow
 from . import c02
 
@@ -335,16 +335,42 @@ def run(prog, rep):
 
     def mentions_enum(node, enum, member):
         return any(isinstance(x, ast.Attribute) and x.attr == member and isinstance(x.value, ast.Name) and x.value.id == enum for x in ast.walk(node))
-    # the rejection "shared port on an L2PTP service": a raise whose guards say type == L2PTP and interface type == SharedPort
+    # the rejection "shared port on an L2PTP service": a raise all of whose guards hold when the service type is L2PTP and
+    # the interface type SharedPort, and not all of them for a dedicated port (if-tests, tables and temporaries alike)
+    ciparam = [p_ for p_ in func_params(ci) if p_ != 'self'][0]
+    fold5 = lambda e_: prog.const_eval(e_, vmod, uns)
+    l2ptp = prog.const_eval(ast.parse('ServiceType.L2PTP', mode='eval').body, vmod, uns)
+    shared_ = prog.const_eval(ast.parse('InterfaceType.SharedPort', mode='eval').body, vmod, uns)
+    dedic_ = prog.const_eval(ast.parse('InterfaceType.DedicatedPort', mode='eval').body, vmod, uns)
+
+    def _root(e):
+        while isinstance(e, (ast.Attribute, ast.Call, ast.Subscript)):
+            e = e.func if isinstance(e, ast.Call) else e.value
+        return e.id if isinstance(e, ast.Name) else None
     guard_tests = []
     for r_ in walk_no_nested(ci):
         if not isinstance(r_, ast.Raise):
             continue
         _, cs_ = _enclosing(r_, ci)
-        cjs = [cj for c_ in cs_ for cj in conjuncts(canon(expand(c_, cienv)))]
-        l2 = [cj for cj in cjs if isinstance(cj, ast.Compare) and isinstance(cj.ops[0], (ast.Eq, ast.In)) and mentions_enum(cj, 'ServiceType', 'L2PTP')]
-        sh = [cj for cj in cjs if isinstance(cj, ast.Compare) and isinstance(cj.ops[0], (ast.Eq, ast.In)) and mentions_enum(cj, 'InterfaceType', 'SharedPort')]
-        if l2 and sh:
+        cs_ = [canon(expand(c_, cienv)) for c_ in cs_ if getattr(c_, '_guard', None) != 'Raise']
+        if not cs_:
+            continue
+        discr = {}
+        for c_ in cs_:
+            for x in ast.walk(c_):
+                if (isinstance(x, ast.Call) and call_name(x) == 'get_type' and not x.args) or \
+                        (isinstance(x, ast.Attribute) and x.attr in ('type', 'resource_type') and not isinstance(getattr(x, '_parent', None), ast.Call)):
+                    discr[ctext(x)] = 'iface' if _root(x) == ciparam else 'service'
+
+        def rejects(itype):
+            bind = {k_: (itype if v_ == 'iface' else l2ptp) for k_, v_ in discr.items()}
+            try:
+                return all(truth_under(c_, bind, fold5) for c_ in cs_)
+            except Unknown:
+                return False
+            except Exception:
+                return False
+        if discr and rejects(shared_) and not rejects(dedic_):
             guard_tests.append(r_)
     creates = [n for n in cfg.nodes if n.ast is not None and n.kind == 'stmt' and
                any(isinstance(c, ast.Call) and isinstance(c.func, ast.Name) and c.func.id in ('Interface', 'Link')
@@ -402,22 +428,53 @@ def run(prog, rep):
     def is_inferred(e):
         return any(isinstance(x, ast.Name) and x.id in site_sets for x in ast.walk(e))
 
-    def one_site(conds):
-        return any(t in conds for ss in site_sets for t in (f'1 == len({ss})', f'len({ss}) == 1'))
+    def site_counts(nodes):
+        """the numbers of collected sites (0, 1, 2, 3 = more) compatible with every path condition that talks about the
+        size of the site set"""
+        dom = {0, 1, 2, 3}
+        import operator as _op
+        OPS = {ast.Eq: _op.eq, ast.NotEq: _op.ne, ast.Lt: _op.lt, ast.LtE: _op.le, ast.Gt: _op.gt, ast.GtE: _op.ge}
+
+        def ev(n, k):
+            if isinstance(n, ast.UnaryOp) and isinstance(n.op, ast.Not):
+                r = ev(n.operand, k)
+                return None if r is None else not r
+            if isinstance(n, ast.BoolOp):
+                rs = [ev(v, k) for v in n.values]
+                if isinstance(n.op, ast.And):
+                    return False if any(r is False for r in rs) else (None if any(r is None for r in rs) else True)
+                return True if any(r is True for r in rs) else (None if any(r is None for r in rs) else False)
+            if isinstance(n, ast.Name) and n.id in site_sets:
+                return k > 0
+            if isinstance(n, ast.Compare) and len(n.ops) == 1 and type(n.ops[0]) in OPS:
+                l, r = n.left, n.comparators[0]
+                if is_len_of(l, site_sets) and isinstance(r, ast.Constant) and isinstance(r.value, int):
+                    return OPS[type(n.ops[0])](k, r.value)
+                if is_len_of(r, site_sets) and isinstance(l, ast.Constant) and isinstance(l.value, int):
+                    return OPS[type(n.ops[0])](l.value, k)
+            return None
+        for n in nodes:
+            dom = {k for k in dom if ev(n, k) is not False}
+        return dom
+
+    def one_site(conds, nodes=None):
+        if any(t in conds for ss in site_sets for t in (f'1 == len({ss})', f'len({ss}) == 1')):
+            return True
+        return nodes is not None and site_counts(nodes) == {1}
     stores_ok = compares_ok = multi_ok = False
     for o in souts:
         kind_ = o.target.value if isinstance(o.target, ast.Constant) else None
         cs = set(o.conds)
-        if kind_ == 'store' and is_inferred(o.value) and one_site(cs) and 'not self.site' in cs:
+        if kind_ == 'store' and is_inferred(o.value) and one_site(cs, o.cond_nodes) and 'not self.site' in cs:
             stores_ok = True
         if kind_ == 'reject':
             ne = [n for n in o.cond_nodes if isinstance(n, ast.Compare) and isinstance(n.ops[0], ast.NotEq) and
                   {'declared' if ctext(x) == 'self.site' else ('inferred' if is_inferred(x) else 'other') for x in (n.left, n.comparators[0])} == {'declared', 'inferred'}]
-            if ne and one_site(cs) and 'self.site' in cs:
+            if ne and one_site(cs, o.cond_nodes) and 'self.site' in cs:
                 compares_ok = True
             limit_rejection = any(isinstance(n, ast.Compare) and isinstance(n.ops[0], ast.Lt) and is_limit(n.left) and is_len_of(n.comparators[0], site_sets | {iparam})
                                   for n in o.cond_nodes) or any(isinstance(n, ast.Compare) and isinstance(n.ops[0], ast.Lt) and is_limit(n.comparators[0]) for n in o.cond_nodes)
-            if 'self.site' in cs and not one_site(cs) and any(ss in cs for ss in site_sets) and not ne and not limit_rejection:
+            if 'self.site' in cs and not (site_counts(o.cond_nodes) & {0, 1}) and not ne and not limit_rejection:
                 multi_ok = True
     rep.instance('R6', f'site outcomes: inferred site stored when undeclared={stores_ok}; declared compared with inferred={compares_ok}; multi-site with declared site rejected={multi_ok}')
     if not stores_ok:
